@@ -142,6 +142,31 @@ Theorem C14_promotion_needs_sustained_check_failure : forall c evs,
 Proof. exact promotion_needs_sustained_check_failure. Qed.
 Print Assumptions C14_promotion_needs_sustained_check_failure.
 
+(* the armed deadline, EVERY history (stale timers and overlapping executions included, any number of
+   earlier down episodes, promotions, failbacks, forced failovers): whenever the controller is pending,
+   the partner is reported down and the failover timer is armed with deadline = (model time of the down
+   report that started the CURRENT uninterrupted down episode) + FailoverDelay — full *)
+Theorem C14_pending_deadline_is_since_plus_delay : forall c evs,
+  st (run c (init c) evs) = Pending ->
+  healthy (run c (init c) evs) = false /\
+  fo (run c (init c) evs) = Some (since (run c (init c) evs) + c_delay c).
+Proof. exact pending_deadline_is_since_plus_delay. Qed.
+Print Assumptions C14_pending_deadline_is_since_plus_delay.
+
+Theorem C14_armed_deadline_is_episode_start_plus_delay : forall c evs,
+  st (run c (init c) evs) = Pending ->
+  exists pre post, evs = pre ++ Down :: post /\
+    healthy (run c (init c) pre) = true /\
+    (forall k, healthy (run c (init c) (pre ++ Down :: firstn k post)) = false) /\
+    fo (run c (init c) evs) = Some (now (run c (init c) pre) + c_delay c).
+Proof. exact armed_deadline_is_episode_start_plus_delay. Qed.
+Print Assumptions C14_armed_deadline_is_episode_start_plus_delay.
+
+Example C14_second_episode_deadline :
+  st (run cfg0 (init cfg0) [Down; Advance 9; Up; Advance 3; Down; Advance 5]) = Pending /\
+  fo (run cfg0 (init cfg0) [Down; Advance 9; Up; Advance 3; Down; Advance 5]) = Some 22.
+Proof. exact second_episode_deadline. Qed.
+
 (* non-vacuity (thresholds 3 / 2): F F S F F does not take the partner down, the sixth check does; one
    success in between does not bring it back; the timer promotes after the delay; the complete monitor
    accepts the run *)
